@@ -189,4 +189,21 @@ def C09reported (i : SyncIn) (plan : List Fault) (o : SyncObs) : Bool :=
       (kind == .alreadyExists && e.verb == "create" && e.res == "rev") ||
       (e.verb == "get" && e.res == "rev" && (match prev with | some (p, _, pk) => p.verb == "update" && p.res == "rev" && p.name == e.name && pk.isSome | none => false))
 
+/-- C10 / C11, revisions: an adoption patch of a ControllerRevision needs an earlier uncached read of the set, unfailed, that
+    found the same uid and no deletion timestamp (the model-level statement is `revision_adoption_confirmed` in Props/C10) -/
+def C10revAdopt (i : SyncIn) (plan : List Fault) (o : SyncObs) : Bool :=
+  let ann := annotate plan o.log
+  ann.all fun (e, idx, _) =>
+    if e.res == "rev" && e.verb == "patch" then
+      freshOk i.fresh && !i.view.deleting &&
+      ann.any (fun (g, j, k) => g.verb == "get" && g.res == "set" && j < idx && k.isNone)
+    else true
+
+/-- C11, stale cache: when the API copy of the set carries a deletion timestamp nothing is adopted, neither pods nor revisions -/
+def C11freshDeleting (i : SyncIn) (o : SyncObs) : Bool :=
+  !i.fresh.deleting ||
+  (o.log.map parseEntry).all (fun e =>
+    !(e.verb == "patch" && e.res == "rev") &&
+    !(e.verb == "patch" && e.res == "pod" && (i.pods.find? (·.name == e.name)).any (fun c => c.owner == .none)))
+
 end Asts
